@@ -251,7 +251,7 @@ pub fn main() {
     ck.assume("the marker '$Id:$' (nothing between ':' and '$') is not generated: git's ident_to_worktree() calls memchr() with a negative length for it and can crash (SIGSEGV observed), so there is no oracle; where `git checkout-index` (streaming filters) and `git cat-file --filters` (buffer filters) disagree with each other, agreement with either is accepted");
     ck.assume("the repository is opened with gix::open::Options::isolated() (only the repository-local configuration), git runs with system/global configuration disabled");
 
-    ck.sub("world", SubCfg::new(800, 20_000).max_len(3000).max_shrink(16), |t, c| {
+    ck.sub("world", SubCfg::new(250, 20_000).max_len(3000).max_shrink(16), |t, c| {
         let mut labels = Vec::new();
         let w = gen_world(t, &mut labels);
         for l in labels {
@@ -611,6 +611,41 @@ pub fn main() {
                         {
                             return Some("ident-keeps-stale-expansion");
                         }
+                        // The eol filter runs on the OUTPUT of the ident filter: the known ident deviations make gitoxide's
+                        // intermediate buffer shorter (fewer printable bytes), and the known ^Z deviation changes the count of
+                        // non-printable ones, so the text/binary auto-detection can come out differently. Explained iff: line
+                        // endings aside both sides are what the respective ident algorithm yields, exactly one side converted
+                        // every lone LF to CRLF, and the two detections really differ on the two intermediate buffers.
+                        let git_ident = git_reexpand(&f.content, &raw_ids[i]);
+                        if strip_cr(reference) == strip_cr(&git_ident) && strip_cr(g) == strip_cr(&gix_algorithm) {
+                            let lf_to_crlf = |v: &[u8]| {
+                                let mut out = Vec::with_capacity(v.len() + 16);
+                                for (k, b) in v.iter().enumerate() {
+                                    if *b == b'\n' && (k == 0 || v[k - 1] != b'\r') {
+                                        out.push(b'\r');
+                                    }
+                                    out.push(*b);
+                                }
+                                out
+                            };
+                            let git_binary = git_is_binary(&git_ident);
+                            let gix_stats = gix::filter::plumbing::eol::Stats::from_bytes(&gix_algorithm);
+                            let gix_binary = gix_stats.is_binary();
+                            let git_converted = reference == lf_to_crlf(&git_ident).as_slice() && reference != git_ident.as_slice();
+                            let gix_converted = g == lf_to_crlf(&gix_algorithm).as_slice() && g != gix_algorithm.as_slice();
+                            let git_plain = reference == git_ident.as_slice();
+                            let gix_plain = g == gix_algorithm.as_slice();
+                            if (git_converted && gix_plain && !git_binary && gix_binary)
+                                || (git_plain && gix_converted && git_binary && !gix_binary)
+                            {
+                                // which recorded class flips the detection?
+                                return Some(if git_is_binary(&gix_algorithm) == gix_binary {
+                                    "ident-keeps-stale-expansion"
+                                } else {
+                                    "trailing-ctrl-z-counts-as-non-printable"
+                                });
+                            }
+                        }
                         None
                     };
                     // Ok(()) = equal, Err(sig) = a classified deviation (sig non-empty) or an unknown difference
@@ -718,6 +753,45 @@ pub fn main() {
     });
 
     ck.finish();
+}
+
+/// Transcription of git's `gather_stats()` + `convert_is_binary()`, used only to CLASSIFY disagreements.
+fn git_is_binary(buf: &[u8]) -> bool {
+    let (mut nul, mut lonecr, mut printable, mut nonprintable) = (0usize, 0usize, 0usize, 0usize);
+    let mut k = 0;
+    while k < buf.len() {
+        let c = buf[k];
+        k += 1;
+        if c == b'\r' {
+            if buf.get(k) == Some(&b'\n') {
+                k += 1;
+            } else {
+                lonecr += 1;
+            }
+            continue;
+        }
+        if c == b'\n' {
+            continue;
+        }
+        if c == 127 {
+            nonprintable += 1;
+        } else if c < 32 {
+            match c {
+                8 | 9 | 27 | 12 => printable += 1,
+                0 => {
+                    nul += 1;
+                    nonprintable += 1;
+                }
+                _ => nonprintable += 1,
+            }
+        } else {
+            printable += 1;
+        }
+    }
+    if buf.last() == Some(&0x1a) && nonprintable > 0 {
+        nonprintable -= 1;
+    }
+    lonecr > 0 || nul > 0 || (printable >> 7) < nonprintable
 }
 
 /// Transcription of the substitution loop of git's `ident_to_worktree()`, used only to CLASSIFY disagreements.
